@@ -64,6 +64,27 @@ func refExtends(get refView, b, target *hotstuff.Block) (ans, inDomain bool) {
 
 // vote returns the reference's vote decision; ok=false: abstain.
 func (r *refRules) vote(get refView, curView hotstuff.View, p hotstuff.ProposeMsg) (vote, ok bool) {
+	vote, ok = r.vote0(get, curView, p)
+	if vote && ok && (r.kind == rules.NameChainedHotStuff || r.kind == rules.NameSimpleHotStuff) {
+		// A vote presupposes that update(b*) can move the lock: the published protocols take the branch of b* to
+		// be at hand. If the block the lock update reads below j(b*) is not in the replica's store, whether it can
+		// be had is the network's business: outside the reference's domain (the implementation refuses to vote
+		// when the fetch fails, see D19).
+		jh := p.Block.QuorumCert().BlockHash()
+		jb := get(jh)
+		if jb == nil && jh != (hotstuff.Hash{}) {
+			return false, false
+		}
+		if jb != nil {
+			if h := jb.QuorumCert().BlockHash(); h != (hotstuff.Hash{}) && get(h) == nil {
+				return false, false
+			}
+		}
+	}
+	return vote, ok
+}
+
+func (r *refRules) vote0(get refView, curView hotstuff.View, p hotstuff.ProposeMsg) (vote, ok bool) {
 	b := p.Block
 	switch r.kind {
 	case rules.NameChainedHotStuff:
